@@ -831,7 +831,7 @@ func runChainCase(r *Runner, cc chainCase, idx int) {
 	}
 	iss := buildRevoChain(&cc)
 	pki := &revoPKI{other: getOtherCA(), delegates: map[string]*Issued{}, leaves: map[string]*Issued{}}
-	tr := &scriptedTransport{m: map[string]*httpBehaviour{}}
+	tr := &scriptedTransport{m: map[string]*httpBehaviour{}, lengthMode: []string{"", "exact", "unknown"}[idx%3]}
 	ft := &scriptedFetcher{m: map[string]*fetchBehaviour{}}
 	certsIn := []any{}
 	owner := map[string]int{}
@@ -1028,7 +1028,7 @@ func runChainCase(r *Runner, cc chainCase, idx int) {
 	}
 	impl := map[string]any{}
 	c := &Case{ID: fmt.Sprintf("%s-%d", cc.label, idx), K: "validate", In: in, Impl: impl, Class: cc.label, Tags: cc.tags,
-		Replay: map[string]any{"chain_pem": pemChain(chain), "levels": describeLevels(cc.levels), "mode": cc.mode, "purpose": purposeName, "st_zero": cc.stZero, "checked_first_sibling_serial": cc.warmupSerial}}
+		Replay: map[string]any{"chain_pem": pemChain(chain), "levels": describeLevels(cc.levels), "mode": cc.mode, "purpose": purposeName, "st_zero": cc.stZero, "checked_first_sibling_serial": cc.warmupSerial, "response_content_length": tr.lengthMode}}
 	if panicked != nil {
 		impl["panic"] = fmt.Sprint(panicked)
 		r.Submit(c)
